@@ -62,7 +62,14 @@ def one_pair(task):
     return dict(task=task, same_points=(res[1][0] == res[-1][0]), mean_pos=res[1][1], mean_neg=res[-1][1])
 
 
+def pre_build(ctx):
+    import gen_units
+    gen_units.pre_build(ctx, "translate_shc")
+
+
 def run(ctx):
+    import gen_units
+    gen_units.g_unit(ctx, "translate_shc")
     core_units.run(ctx, which="C09")
     ctx.assumptions.append("the first sentence of the property is statistical: it is decided by the paired sign test below (monitor), not by a theorem")
     ctx.monitor_rule = ("per optimizer: unimodal landscapes f with the optimum near a corner (1-3 dims, negative / positive / mixed score "
